@@ -16,6 +16,11 @@ import GrafeoModel.Driver.Plan
 import GrafeoModel.Driver.Conc
 import GrafeoModel.Driver.Mem
 import GrafeoModel.Driver.Zm
+import GrafeoModel.Driver.Sparql
+import GrafeoModel.Driver.Push
+import GrafeoModel.Driver.Ser
+import GrafeoModel.Driver.QueryAgg
+import GrafeoModel.Driver.C15b
 import GrafeoModel.Driver.Query
 
 /-!
@@ -76,6 +81,26 @@ def dispatch (st : DState) (line : String) : DState × String :=
       | none => (st, "bad-op")
     else if stream == "mem" then
       match DriverMem.handle args with
+      | some o => (st, o.render)
+      | none => (st, "bad-op")
+    else if stream == "sparql" then
+      match DriverSparql.handle args with
+      | some o => (st, o.render)
+      | none => (st, "bad-op")
+    else if stream == "push" then
+      match DriverPush.handle args with
+      | some o => (st, o.render)
+      | none => (st, "bad-op")
+    else if stream == "ser" then
+      match DriverSer.handle args with
+      | some o => (st, o.render)
+      | none => (st, "bad-op")
+    else if stream == "qa" then
+      match DriverQueryAgg.handle args with
+      | some o => (st, o.render)
+      | none => (st, "bad-op")
+    else if stream == "c15b" then
+      match DriverC15b.handle args with
       | some o => (st, o.render)
       | none => (st, "bad-op")
     else if stream == "lex" then
